@@ -179,7 +179,7 @@ fn c02_approve(m: usize) -> u8 {
     }
     outcome
 }
-// HARNESS props=C02,C01 clauses=file tier=quick profile=gw_appr1 shape="batch M=1; arbitrary prior status; witness key; strings <=2 bytes"
+// HARNESS props=C02,C01 tier=quick profile=gw_appr1 shape="batch M=1; arbitrary prior status; witness key; strings <=2 bytes"
 #[kani::proof]
 #[kani::unwind(130)]
 #[kani::stub(crate::auth::validate_proof, stub_validate_proof)]
@@ -189,7 +189,7 @@ fn c02_approve_m1() {
     kani::cover!(o == 2, "VERIF:reach:all known");
     kani::cover!(o == 0, "VERIF:reach:batch refused");
 }
-// HARNESS props=C02,C01 clauses=file tier=quick profile=gw_appr1 shape="empty batch"
+// HARNESS props=C02,C01 tier=quick profile=gw_appr1 shape="empty batch"
 #[kani::proof]
 #[kani::unwind(130)]
 #[kani::stub(crate::auth::validate_proof, stub_validate_proof)]
@@ -197,7 +197,7 @@ fn c02_approve_m0() {
     let o = c02_approve(0);
     kani::cover!(o == 0, "VERIF:reach:empty batch refused");
 }
-// HARNESS props=C02,C01 clauses=file tier=quick profile=gw_appr2 shape="batch M=2 incl. in-batch duplicates"
+// HARNESS props=C02,C01 tier=quick profile=gw_appr2 shape="batch M=2 incl. in-batch duplicates"
 #[kani::proof]
 #[kani::unwind(200)]
 #[kani::stub(crate::auth::validate_proof, stub_validate_proof)]
